@@ -37,3 +37,11 @@ pub mod validate;
 
 #[cfg(feature = "pyo3")]
 pub mod pyo3;
+
+// Verification hook (inert unless built with `--cfg nrel_altrios_verif` or under
+// `cargo kani`): pulls harness / replay code from the directory named by
+// NREL_ALTRIOS_VERIF_DIR. Adds no code to normal builds.
+#[cfg(any(kani, nrel_altrios_verif))]
+pub mod verif_hook {
+    include!(concat!(env!("NREL_ALTRIOS_VERIF_DIR"), "/hooks/lib.rs"));
+}
